@@ -399,6 +399,10 @@ pub const REGEX_VOCAB: &[(&str, &str, &str)] = &[
     ("a\\.*", "a.", "b"),
     ("^$", "", "a"),
     ("A", "A", "a"),
+    ("^.*ab", "cab", "c\nab"),
+    ("ab.*$", "abc", "ab\nc"),
+    ("^.*a.*$", "bab", "b\nab\n"),
+    ("ab", "xab", "ba"),
 ];
 
 /// A document value that should make the scalar predicate true / almost true.
